@@ -41,9 +41,17 @@ def rc_cases(ctx: Ctx, exprs: Sequence[Tuple[str, Any]], max_assign: int) -> Lis
 
 def run_impl_and_model(ctx: Ctx, cases: List[Dict[str, Any]], model_ok: bool) -> None:
     """fills case['impl'] and case['model'] (requirement_constraint_evaluation on the tree)"""
-    evalenv.configure_cer_based()
+    E.configure(ctx.rng)
+    # the cases of one expression follow each other: for half of the expressions ONE parsed tree object is evaluated under all its
+    # assignments (callers may parse once and evaluate many times), for the others every evaluation gets a fresh tree
+    last_e, tree, reuse, before = None, None, False, []
     for c in cases:
-        c["impl"] = E.eval_rc(T.to_lark(c["e"]), c["rc"], c["hints"])
+        if c["e"] is not last_e:
+            last_e, tree, reuse, before = c["e"], T.to_lark(c["e"]), ctx.rng.random() < 0.5, []
+            ctx.count("tree_object", "reused" if reuse else "fresh")
+        c["same_tree_object_evaluated_before_under"] = list(before) if reuse else []
+        c["impl"] = E.eval_rc(tree if reuse else T.to_lark(c["e"]), c["rc"], c["hints"])
+        before.append(c["rc"])
     if model_ok:
         outs = ctx.driver({"op": "evalRc", "tree": T.to_json(c["e"]), "rc": c["rc"], "hints": c["hints"]} for c in cases)
         for c, o in zip(cases, outs):
